@@ -3,6 +3,7 @@ package main
 import (
 	"bufio"
 	"fmt"
+	"strings"
 )
 
 // runFamily dispatches the non-graph families; returns false if unknown.
@@ -32,6 +33,7 @@ func runFamily(fam string, w *bufio.Writer, r *rng, id, size int, opt string) bo
 		if opt != "" {
 			fmt.Sscanf(opt, "%d", &rounds)
 		}
+		raceFailOnce = strings.HasSuffix(opt, "f") // "25f": run-once converters abound and fail the first time
 		genRace(w, r, id, g, rounds)
 	case "convseq":
 		genConvSeq(w, r, id)
